@@ -6,6 +6,36 @@ STD_ASSUME = ["the Lean model is tied to /repo by the T1 extractor and the T2 co
 HOOK_COMMITS = ["9665c83 verif hooks: yield points in the sse delivery goroutine and handler exit path"]
 
 PROPS = {
+    "C15": {
+        "claimed": True,
+        "race_build": True,
+        "quick_shards": 6, "thorough_shards": 14,
+        "model_modules": ["TemplVerif.Model.Fs", "TemplVerif.Generated.Walk"],
+        "proof_modules": ["TemplVerif.Proofs.Fs"],
+        "level_text": "PROVED in Lean 4 for the model of the walk and the per-file handlers (each handler = look at the file system, later "
+                      "change it): C15_spec - EVERY complete interleaving of the look/act steps of all handlers (so every worker count and "
+                      "schedule) ends in exactly the tree the specification gives and counts exactly the files that cannot be generated; "
+                      "C15_schedule_independent; C15_generated / C15_orphan / C15_untouched spell the specification out (every visited .templ "
+                      "file gets the generation of itself alone, orphans go unless kept, nothing else changes, a failing file changes nothing "
+                      "else); C15_idempotent - a second run changes no content and fails for the same files. T1 (C15_pinned): skip lists, "
+                      "dirs-only skipping, handler suffixes, sibling naming and watch pattern are re-extracted from the source on every run. "
+                      "CHECKED, not proved: that the real CLI is this model - random trees (skipped and non-skipped directory names, "
+                      "underscore/dot-prefixed FILE names, stale siblings, orphans, unparseable templates, templates whose Go does not format, "
+                      "unrelated files) x -w 1..16 x GOMAXPROCS 1..16 x keep-orphaned / lazy / include-version, through a RACE-INSTRUMENTED "
+                      "templ binary, twice; tree, exit status, modification times and race reports are compared with the specification.",
+        "level_note": "The generation of one file alone (genOf) is a parameter of the theorems - C02 is about what it is; the harness obtains it from "
+                      "the library pipeline outside the CLI. Data-race freedom of the handler's shared maps/options is supported by the race "
+                      "detector on sampled schedules, not proved. -lazy is checked under its stated precondition (a newer sibling is a correct generation).",
+        "rule": "60 (3000) random trees: 1-6 directories to depth 3 from 14 names (half of them skipped kinds), 1-12 files from 11 stems x 9 kinds. "
+                "Non-trivial = the specification writes or removes at least one file.",
+        "exhaustive": False,
+        "proved": ["C15_spec", "C15_schedule_independent", "C15_sequential_complete", "C15_generated", "C15_orphan", "C15_untouched", "C15_idempotent", "C15_pinned"],
+        "monitored": ["tree after run 1 = spec(tree before)", "exit status <-> some visited template cannot be generated", "run 2 changes nothing",
+                      "only written/removed paths get a new mtime", "race detector reports of the templ binary"],
+        "partial": ["real goroutine scheduling and the Go memory model", "symlinks, watch mode, -f single-file mode, custom watch patterns, file names containing line breaks"],
+        "trusted_base": ["os / io/fs.WalkDir semantics", "Go race detector (support only)", "go/format"],
+        "assumptions": STD_ASSUME,
+    },
     "C14": {
         "claimed": True,
         "race_build": True,
